@@ -449,8 +449,31 @@ Fixpoint parse_users (fuel : nat) (g : list Z) : users :=
 Fixpoint pair_up (l : list (list Z)) : list oracle :=
   match l with a :: b :: r => (a, b) :: pair_up r | _ => [] end.
 
+(* ------------------------------------------------------------------ the by-name lookup on tables of any size
+   (the production build has MAX_BOARD = 20000; GetBid itself does not mention MAX_BOARD). A table is given by the
+   13-byte names of its slots and the by-name index the implementation built; the index is accepted only if it is
+   a sorted permutation. [sorted_lnames] on the lower-cased names listed in index order is [sorted_by (less_name _)]
+   (Proofs/C12_big.v: sorted_by_names), without the linear [gets] and the case folding per comparison. *)
+Fixpoint sorted_lnames (l : list (list Z)) : bool :=
+  match l with
+  | [] => true
+  | x :: r => forallb (fun y => negb (cstrcmp y x <? 0)) r && sorted_lnames r
+  end.
+Definition name_slot (n : list Z) : slot := fixlen 13 n ++ repeat 0 243.
+Definition lookup_state (names : list (list Z)) (sn : list Z) : st :=
+  mkSt [] (map name_slot names) [] sn [] (lenZ names) [].
+Definition lookup_ok (names : list (list Z)) (sn : list Z) : bool :=
+  let c := map name_slot names in
+  perm_ok (lenZ names) sn && sorted_lnames (map (fun b => map tolower (name_of (gets c b))) sn).
+Definition lookup_all (names : list (list Z)) (sn : list Z) (keys : list (list Z)) : list Z :=
+  let s := lookup_state names sn in
+  if lookup_ok names sn
+  then ST_OK :: map (fun k => match get_bid s k with Ok v => v | Crash => -1 | Hang => -2 end) keys
+  else [8].
+
 (* op 1: [1; nslots; nreq; via] | pool | dirs | users | slot*nslots | req*nreq | oracle pairs (name, class)*
-   op 3: IsValid of a raw name    op 4: NewBM of raw ids     op 5: name_rule of a raw name (the specification) *)
+   op 3: IsValid of a raw name    op 4: NewBM of raw ids     op 5: name_rule of a raw name (the specification)
+   op 7: [7] | names (13 bytes each) | by-name index | keys (13 bytes each): GetBid of every key on a table of any size *)
 Definition run_case (args : list (list Z)) : list Z :=
   match args with
   | [1; ns; nr; _] :: pool :: dirs :: us :: rest =>
@@ -474,5 +497,6 @@ Definition run_case (args : list (list Z)) : list Z :=
   | [[3]; raw] => [ST_OK; if is_valid_name (fixlen 13 raw) then 1 else 0]
   | [4] :: ids => ST_OK :: new_bm (map (fixlen 13) ids)
   | [[5]; raw] => [ST_OK; if name_rule raw then 1 else 0]
+  | [[7]; names; sn; keys] => lookup_all (chunks (length names) 13 names) sn (chunks (length keys) 13 keys)
   | _ => [ST_BADCASE]
   end.
